@@ -115,7 +115,7 @@ pub fn jobs(ctx: &Ctx) -> Vec<RJob> {
     }
     // big pictures: sides beyond 4096 and 8192 pixels, by request (fit) and by a huge quiet zone at original scale
     {
-        let big: Vec<(usize, usize, Option<u32>, usize)> = vec![(1, 0, Some(4097), 0), (2, 1, Some(4800), 2), (3, 0, Some(4096), 5), (1, 2040, None, 0), (1, 4, Some(8200), 0), (2, 2048, None, 0), (5, 0, Some(6000), 1), (1, 1, Some(16_390), 0)];
+        let big: Vec<(usize, usize, Option<u32>, usize)> = vec![(1, 0, Some(4097), 0), (2, 1, Some(4800), 2), (3, 0, Some(4096), 5), (1, 2040, None, 0), (1, 4, Some(8200), 0), (2, 2048, None, 0), (5, 0, Some(6000), 1), (1, 1, Some(12_000), 0)];
         for (i, (v, margin, fit, shape)) in big.into_iter().enumerate() {
             if ctx.tier == Tier::Quick && i >= 4 {
                 break;
@@ -333,7 +333,7 @@ pub fn run(ctx: &Ctx) -> Report {
     }
     let mut rep = Report::new(
         st,
-        "jobs = versions {1,2,7,10,20,40} (thorough: all 40) x 6 built-in shapes x margins {0,1,4} x fit {none, width only, height only, both (smaller one decides)} + big pictures (sides 4096, 4097, 4800, 4101 by a quiet zone of 2040 modules; thorough: 6000, 8200, 4121 by quiet zone, 16390) at integer 1-3 px/module and 4.0-7.5 px/module (integer and fractional) x colour pairs {default, transparent background, random opaque, random on alpha-0 background, semi-transparent modules}; observed: pixmap side == size+2*margin or the requested square; pixel at the centre of every cell (dark -> module colour, light and quiet zone -> background) when >= 4 px/module, every pixel of every cell for Square at integer scale; PNG bytes decoded by an own PNG reader (CRC, inflate, unfilter) equal the pixmap; thorough adds the ASan stage over usvg/resvg/tiny-skia; distinct key = (qr options, payload hash, spec); every render non-trivial",
+        "jobs = versions {1,2,7,10,20,40} (thorough: all 40) x 6 built-in shapes x margins {0,1,4} x fit {none, width only, height only, both (smaller one decides)} + big pictures (sides 4096, 4097, 4800, 4101 by a quiet zone of 2040 modules; thorough: 6000, 8200, 4121 by quiet zone, 12000) at integer 1-3 px/module and 4.0-7.5 px/module (integer and fractional) x colour pairs {default, transparent background, random opaque, random on alpha-0 background, semi-transparent modules}; observed: pixmap side == size+2*margin or the requested square; pixel at the centre of every cell (dark -> module colour, light and quiet zone -> background) when >= 4 px/module, every pixel of every cell for Square at integer scale; PNG bytes decoded by an own PNG reader (CRC, inflate, unfilter) equal the pixmap; thorough adds the ASan stage over usvg/resvg/tiny-skia; distinct key = (qr options, payload hash, spec); every render non-trivial",
     );
     rep.expected_sets = vec![("shapes", 6), ("fit_kinds", 4), ("margins", 3)];
     rep.required_sets = vec![("shapes", 6), ("fit_kinds", 4), ("margins", 3)];
